@@ -154,7 +154,10 @@ def install():
                 if kind == "get_acorr":
                     var = np.diag(ref_sel[0]).copy()
                     sd = np.sqrt(np.where(var > 0, var, np.nan))
-                    undefined = ~np.isnan(var) & ~(var > 1e-14 * (1 + np.nanmax(np.abs(var))))   # zero-variance variable: correlation undefined
+                    # zero-variance variable: correlation undefined. "Zero" is relative to the largest variance: with a root at 0.997 the
+                    # Lyapunov solve amplifies rounding by 1/(1-0.997^2), and a variable driven only by a shock with std 0 comes back
+                    # with a variance of 1e-13 instead of 0
+                    undefined = ~np.isnan(var) & ~(var > 1e-9 * np.nanmax(np.abs(var), initial=0.0)) if np.isfinite(var).any() else ~np.isnan(var)
                     with np.errstate(all="ignore"):
                         ref_sel = [R / np.outer(sd, sd) for R in ref_sel]
                     weight = np.outer(np.nan_to_num(sd), np.nan_to_num(sd))   # correlations are compared in covariance units:
